@@ -31,8 +31,12 @@ OPS = [
     (r"\.first\(\)", ".last()"), (r"\.last\(\)", ".first()"),
     (r"\.trim_start\(\)", ""), (r"\.trim_end\(\)", ""), (r"\.trim\(\)", ""),
     (r"\.or_else\(", ".and_then("),
+    (r"(?<=[\(\s=])!(?=[a-zA-Z_\(])", ""),
+    (r"(?<![\w\.])0(?![\w\.])", "1"), (r"(?<![\w\.])1(?![\w\.])", "0"),
     (r"\.unwrap_or_default\(\)\.", None),  # placeholder (never matches usefully)
 ]
+# statement deletion: a whole single-line call statement (no binding, no control flow)
+STMT = re.compile(r"^\s+(?!let |return|break|continue|if |for |while |match |use |pub |fn |impl |\}|\)|\]|//|#)[A-Za-z_][\w\.:<>&\*]*(\(|\.|!\().*;\s*$")
 
 
 def sh(cmd, **kw):
@@ -73,6 +77,9 @@ def gen(name, files):
                     skip_depth = None
                 continue
             code = line.split(" // ")[0]
+            if STMT.match(code) and code.count("(") == code.count(")") and code.count("{") == code.count("}"):
+                indent = code[: len(code) - len(code.lstrip())]
+                out.append({"file": f, "line": ln + 1, "op": "delete statement", "before": line, "after": indent + "// (deleted) " + code.strip()})
             for pat, rep in OPS:
                 if rep is None:
                     continue
